@@ -1236,6 +1236,22 @@ where
          what="validate() copies the connection's live parameter record (D79 again)",
          old="""                    let server_parameters: ServerParameters = server.startup_parameters();""",
          new="""                    let server_parameters: ServerParameters = server.server_parameters();"""),
+    dict(id="c15-admin-name-not-reserved", prop="C15", file="src/config.rs", expect="C15-V",
+         what="only one of the two admin database names is refused as a pool name (D81 again)",
+         old="""        for reserved in ["pgcat", "pgbouncer"] {""",
+         new="""        for reserved in ["pgcat"] {"""),
+    dict(id="c15-third-admin-name", prop="C15", file="src/client.rs", expect="C15-V",
+         what="Client::startup learns a third name for the admin console that validate() does not reserve",
+         old="""        let admin = ["pgcat", "pgbouncer"]""",
+         new="""        let admin = ["pgcat", "pgbouncer", "admin"]"""),
+    dict(id="c15-cache-ttl-unbounded", prop="C15", file="src/config.rs", expect="C15-V",
+         what="db_activity_ttl has no upper bound again (D80 again)",
+         old="""            if self.db_activity_ttl > MAX_CACHE_EXPIRATION_SECS {""",
+         new="""            if false && self.db_activity_ttl > MAX_CACHE_EXPIRATION_SECS {"""),
+    dict(id="c15-cache-ttl-bound-in-the-wrong-unit", prop="C15", file="src/config.rs", expect="C15-V",
+         what="the millisecond value is compared with a bound written out in the wrong unit (1000x too large)",
+         old="""            if self.table_mutation_cache_ms_ttl > MAX_CACHE_EXPIRATION_SECS * 1000 {""",
+         new="""            if self.table_mutation_cache_ms_ttl > 31_536_000_000_000_000 {"""),
     # ------------------------------------------------------------------ C17
     dict(id="c17-shutdown-checked-in-transaction", prop="C17", file="src/client.rs", expect="C17-R1",
          what="the transaction loop also reacts to the shutdown broadcast",
